@@ -4,9 +4,12 @@ cd /repo || exit 2
 bad=0
 for d in /verif/seeded/*/; do
   id=$(basename $d); prop=$(python3 -c "import json;print(json.load(open('$d/meta.json'))['property'])" 2>/dev/null)
+  expected=$(python3 -c "import json;print(json.load(open('$d/meta.json')).get('expected','caught'))" 2>/dev/null)
   git apply $d/patch.diff || { echo "cannot apply $id"; bad=1; continue; }
   o=$(cd /verif && ./check $prop --tier quick 2>&1); r=$?
   git checkout -- .
-  if [ $r -eq 1 ]; then echo "caught   $id by $prop: $(echo "$o" | grep -m1 -oE 'rule [^ ]+ violated in [^ ]+')"; else echo "MISSED   $id ($prop exit $r)"; bad=1; fi
+  if [ $r -eq 1 ]; then echo "caught   $id by $prop: $(echo "$o" | grep -m1 -oE 'rule [^ ]+ violated in [^ ]+')";
+  elif [ "$expected" = "missed" ] && [ $r -eq 0 ]; then echo "expected miss $id ($prop exit 0: documented blind spot, see meta.json)";
+  else echo "MISSED   $id ($prop exit $r)"; bad=1; fi
 done
 exit $bad
